@@ -165,6 +165,31 @@ func repeatSig(sig hotstuff.QuorumSignature, k int) hotstuff.QuorumSignature {
 	return nil
 }
 
+// rotateSig builds a multi-signature of n entries that cycles through the first k distinct entries of sig.
+func rotateSig(sig hotstuff.QuorumSignature, k, n int) hotstuff.QuorumSignature {
+	switch s := sig.(type) {
+	case crypto.Multi[*crypto.EDDSASignature]:
+		if len(s) < k || k < 1 {
+			return nil
+		}
+		out := make(crypto.Multi[*crypto.EDDSASignature], 0, n)
+		for i := 0; i < n; i++ {
+			out = append(out, s[i%k])
+		}
+		return out
+	case crypto.Multi[*crypto.ECDSASignature]:
+		if len(s) < k || k < 1 {
+			return nil
+		}
+		out := make(crypto.Multi[*crypto.ECDSASignature], 0, n)
+		for i := 0; i < n; i++ {
+			out = append(out, s[i%k])
+		}
+		return out
+	}
+	return nil
+}
+
 // relabelSig keeps the signature bytes but claims other signer IDs (shifted by one).
 func relabelSig(sig hotstuff.QuorumSignature, n int) hotstuff.QuorumSignature {
 	switch s := sig.(type) {
@@ -621,7 +646,24 @@ func (a *adversary) onNewView(nd *Node, to hotstuff.ID, si *hotstuff.SyncInfo) b
 	if has(acts, "aggreplay") && len(a.aggs) > 0 && a.chance(0.7) {
 		// an aggregate certificate seen earlier, replayed as is or with its view or one per-signer QC altered
 		agg := a.aggs[a.intn(len(a.aggs))]
-		switch a.intn(3) {
+		switch a.intn(5) {
+		case 3, 4:
+			// the same signature over a padded batch: an extra per-replica QC for somebody who did not sign
+			qcs := map[hotstuff.ID]hotstuff.QuorumCert{}
+			var any hotstuff.QuorumCert
+			for id := 1; id <= a.w.plan.N; id++ {
+				if qc, ok := agg.QCs()[hotstuff.ID(id)]; ok {
+					qcs[hotstuff.ID(id)] = qc
+					any = qc
+				}
+			}
+			for id := 1; id <= a.w.plan.N; id++ {
+				if _, ok := qcs[hotstuff.ID(id)]; !ok {
+					qcs[hotstuff.ID(id)] = any
+					break
+				}
+			}
+			agg = hotstuff.NewAggregateQC(qcs, agg.Sig(), agg.View())
 		case 1:
 			agg = hotstuff.NewAggregateQC(agg.QCs(), agg.Sig(), agg.View()+hotstuff.View(1+a.intn(8)))
 		case 2:
